@@ -142,8 +142,6 @@ class GX(gen.G):
                 return M.Bin("*", self.vexpr(ty, depth - 1), self.expr(cty, depth - 1))
             if r < 82:
                 rhs = self.nonzero_lit(cty) if (cty == INT or self.chance(70)) else self.expr(cty, depth - 1)
-                if cty == INT:
-                    rhs = M.Lit(1, INT, "1") if self.chance(60) else rhs
                 return M.Bin("/", self.vexpr(ty, depth - 1), rhs)
             if r < 92:
                 return self.construct_vec(ty, depth)
